@@ -120,11 +120,11 @@ example :
     ((markLoop allEdges (markAll demoCells) demoRoots 0).1.map (·.reachable),
      (markLoop allEdges (markAll demoCells) demoRoots 0).2) = ([true, true, false], 2) := by
   rw [show demoRoots = [.node 24 [(0, .ref 10 0), (1, .atom 5)]] from rfl, markLoop_node,
-    show kids allEdges (.node 24 [(0, .ref 10 0), (1, .atom 5)]) ++ [] = [.ref 10 0, .atom 5] from by decide,
+    show kids allEdges (.node 24 [(0, .ref 10 0), (1, .atom 5)]) ++ [] = [.ref 10 0, .atom 5] from rfl,
     markLoop_ref_unmarked allEdges 0 _ _ (c := ⟨10, false, .node 23 [(0, .atom 1), (0, .ref 11 1)]⟩) rfl rfl,
     markLoop_node,
     show kids allEdges (.node 23 [(0, .atom 1), (0, .ref 11 1)]) ++ [Val.atom 5] = [.atom 1, .ref 11 1, .atom 5]
-      from by decide,
+      from rfl,
     markLoop_atom,
     markLoop_ref_unmarked allEdges 1 _ _ (c := ⟨11, false, .ref 10 0⟩) rfl rfl,
     markLoop_ref_marked allEdges 0 _ _ (c := ⟨10, true, .node 23 [(0, .atom 1), (0, .ref 11 1)]⟩) rfl rfl,
